@@ -143,3 +143,87 @@ func HarnessBan() {
 	vh.Assert("C18/banned-host-is-refused-while-the-ban-runs", !admitted && peerpkg.HarnessDisconnected(sp2.Peer))
 	vh.Reach("end")
 }
+
+var c18Hosts = []string{"10.1.2.3", "10.2.3.4"}
+
+// c18Consistent: the per-host counters count exactly the listed non-persistent peers of each
+// host, the group counter counts exactly the listed outbound (incl. persistent) peers, and no
+// counter is negative - the bookkeeping invariant every admission decision relies on.
+func c18Consistent(st *peerState, group string) bool {
+	cs := []bool{}
+	for _, h := range c18Hosts {
+		n := 0
+		for _, sp := range st.inboundPeers {
+			if sp.Addr() == h+":8333" {
+				n++
+			}
+		}
+		for _, sp := range st.outboundPeers {
+			if sp.Addr() == h+":8333" {
+				n++
+			}
+		}
+		cs = append(cs, st.connectionCount[h] == n)
+	}
+	cs = append(cs, st.outboundGroups[group] == len(st.outboundPeers)+len(st.persistentPeers))
+	return vh.And(cs...)
+}
+
+// HarnessPeerStateStep (C18): the bookkeeping invariant is inductive. From every consistent
+// state of k listed peers (each inbound / outbound / persistent, on one of two hosts) one
+// arbitrary event - a new peer of any kind asking for admission, a listed peer leaving, a peer
+// that was never admitted leaving, a ban - leaves the counters consistent with the lists.
+// Since the pre-state is arbitrary, histories of any length follow by induction.
+func HarnessPeerStateStep(k int) {
+	log := vh.Logger()
+	s := &server{log: log, p2pConfig: &config.P2PConfig{BanDuration: time.Hour}}
+	st := &peerState{inboundPeers: map[int32]*serverPeer{}, outboundPeers: map[int32]*serverPeer{}, persistentPeers: map[int32]*serverPeer{},
+		banned: map[string]time.Time{}, outboundGroups: map[string]int{}, connectionCount: map[string]int{}}
+	mk := func(id int32) *serverPeer {
+		kind := vh.Choose(3) // 0 inbound, 1 outbound, 2 persistent outbound
+		host := c18Hosts[vh.Choose(len(c18Hosts))]
+		return &serverPeer{Peer: peerpkg.HarnessPeerWith(log, kind == 0, host+":8333", id), persistent: kind == 2, server: s, log: log}
+	}
+	var group string
+	listed := make([]*serverPeer, k)
+	for i := range listed {
+		sp := mk(int32(i + 1))
+		listed[i] = sp
+		group = addrmgr.GroupKey(sp.NA())
+		host := sp.Addr()[:len(sp.Addr())-len(":8333")]
+		switch {
+		case sp.Inbound():
+			st.inboundPeers[sp.ID()] = sp
+			st.connectionCount[host]++
+		case sp.persistent:
+			st.persistentPeers[sp.ID()] = sp
+			st.outboundGroups[group]++
+		default:
+			st.outboundPeers[sp.ID()] = sp
+			st.connectionCount[host]++
+			st.outboundGroups[group]++
+		}
+	}
+	fresh := mk(1000)
+	group = addrmgr.GroupKey(fresh.NA())
+	vh.Assume(c18Consistent(st, group))
+	switch vh.Choose(4) {
+	case 0:
+		admitted := s.handleAddPeerMsg(st, fresh)
+		vh.Observe("admitted", admitted)
+		if !admitted {
+			s.handleDonePeerMsg(st, fresh) // a refused peer is disconnected: its done event follows
+		}
+	case 1:
+		if k > 0 {
+			s.handleDonePeerMsg(st, listed[vh.Choose(k)])
+		}
+	case 2:
+		s.handleDonePeerMsg(st, fresh) // never admitted
+	case 3:
+		s.handleBanPeerMsg(st, fresh.Peer)
+	}
+	vh.Assert("C18/counters-always-match-the-peer-lists", c18Consistent(st, group))
+	vh.Assert("C18/never-above-per-host-limit", st.connectionCount[c18Hosts[0]] <= config.MaxPeersPerIP && st.connectionCount[c18Hosts[1]] <= config.MaxPeersPerIP)
+	vh.Reach("end")
+}
